@@ -667,6 +667,195 @@ theorem run_valid (S : Schema) (full : Bool) (ty : Nat) (es : List (List Nat × 
     simp only [runOk, Bool.and_eq_true] at hok
     exact ih _ (applyAt_valid S full e p ty t hv hok.1).1 hok.2
 
+/-! ### full validity implies upper-bound validity -/
+
+theorem nodeOk_mono (S : Schema) (ty : Nat) (n : XT) (h : nodeOk S true ty n = true) : nodeOk S false ty n = true := by
+  rw [nodeOk_parts] at h ⊢
+  exact ⟨h.1, h.2.1, fun hf => by cases hf⟩
+
+mutual
+theorem valid_mono (S : Schema) : ∀ (ty : Nat) (t : XT), valid S true ty t = true → valid S false ty t = true
+  | ty, .mk tag as ks, h => by
+    rw [valid_mk, Bool.and_eq_true] at h ⊢
+    exact ⟨nodeOk_mono S ty _ h.1, validKids_mono S (S.ct ty) ks h.2⟩
+theorem validKids_mono (S : Schema) : ∀ (c : CT) (ks : List XT), validKids S true c ks = true → validKids S false c ks = true
+  | _, [], _ => by simp [validKids]
+  | c, k :: ks, h => by
+    simp only [validKids, Bool.and_eq_true] at h ⊢
+    refine ⟨?_, validKids_mono S c ks h.2⟩
+    cases hk : kidType S c k.tag with
+    | none => rfl
+    | some cty =>
+      have h1 := h.1
+      rw [hk] at h1
+      exact valid_mono S cty k h1
+end
+
+/-! ### the pattern matcher is the regular language it denotes (Brzozowski derivatives are correct) -/
+
+/-- denotation of a regular expression over code points -/
+inductive Lang : Re → Str → Prop
+  | eps : Lang .eps []
+  | range (lo hi : Nat) (c : Char) (h1 : lo ≤ c.toNat) (h2 : c.toNat ≤ hi) : Lang (.range lo hi) [c]
+  | seq (a b : Re) (s t : Str) : Lang a s → Lang b t → Lang (.seq a b) (s ++ t)
+  | altL (a b : Re) (s : Str) : Lang a s → Lang (.alt a b) s
+  | altR (a b : Re) (s : Str) : Lang b s → Lang (.alt a b) s
+  | starNil (a : Re) : Lang (.star a) []
+  | starCons (a : Re) (s t : Str) : Lang a s → Lang (.star a) t → Lang (.star a) (s ++ t)
+
+theorem nullable_iff (r : Re) : r.nullable = true ↔ Lang r [] := by
+  induction r with
+  | empty => exact ⟨fun h => (by cases h), fun h => (by cases h)⟩
+  | eps => exact ⟨fun _ => Lang.eps, fun _ => rfl⟩
+  | range lo hi => exact ⟨fun h => (by cases h), fun h => (by cases h)⟩
+  | seq a b iha ihb =>
+    simp only [Re.nullable, Bool.and_eq_true]
+    constructor
+    · rintro ⟨ha, hb⟩
+      have := Lang.seq a b [] [] (iha.mp ha) (ihb.mp hb)
+      simpa using this
+    · intro h
+      generalize hw : ([] : Str) = w at h
+      cases h with
+      | seq _ _ s t hs ht =>
+        have hst : s = [] ∧ t = [] := by
+          have := congrArg List.length hw
+          simp at this
+          exact ⟨List.eq_nil_of_length_eq_zero (by omega), List.eq_nil_of_length_eq_zero (by omega)⟩
+        obtain ⟨rfl, rfl⟩ := hst
+        exact ⟨iha.mpr hs, ihb.mpr ht⟩
+  | alt a b iha ihb =>
+    simp only [Re.nullable, Bool.or_eq_true]
+    constructor
+    · rintro (h | h)
+      · exact Lang.altL a b [] (iha.mp h)
+      · exact Lang.altR a b [] (ihb.mp h)
+    · intro h
+      cases h with
+      | altL _ _ _ h => exact Or.inl (iha.mpr h)
+      | altR _ _ _ h => exact Or.inr (ihb.mpr h)
+  | star a _ => exact ⟨fun _ => Lang.starNil a, fun _ => rfl⟩
+
+/-- a non-empty word of `a*` starts with a non-empty word of `a` -/
+theorem star_cons_split (a : Re) (w : Str) (h : Lang (.star a) w) :
+    ∀ c s, w = c :: s → ∃ s1 s2, s = s1 ++ s2 ∧ Lang a (c :: s1) ∧ Lang (.star a) s2 := by
+  generalize hr : Re.star a = r at h
+  induction h with
+  | eps => cases hr
+  | range => cases hr
+  | seq => cases hr
+  | altL => cases hr
+  | altR => cases hr
+  | starNil => intro c s h; cases h
+  | starCons a' s t hs ht _ iht =>
+    cases hr
+    intro c u hw
+    cases s with
+    | nil => exact iht rfl c u (by simpa using hw)
+    | cons c' s' =>
+      have : c' = c ∧ s' ++ t = u := by simpa using hw
+      obtain ⟨rfl, rfl⟩ := this
+      exact ⟨s', t, rfl, hs, ht⟩
+
+theorem deriv_iff (r : Re) : ∀ (c : Char) (s : Str), Lang (r.deriv c.toNat) s ↔ Lang r (c :: s) := by
+  induction r with
+  | empty => intro c s; exact ⟨fun h => (by cases h), fun h => (by cases h)⟩
+  | eps => intro c s; exact ⟨fun h => (by cases h), fun h => (by cases h)⟩
+  | range lo hi =>
+    intro c s
+    simp only [Re.deriv]
+    constructor
+    · intro h
+      by_cases hin : (decide (lo ≤ c.toNat) && decide (c.toNat ≤ hi)) = true
+      · rw [if_pos hin] at h
+        cases h
+        simp only [Bool.and_eq_true, decide_eq_true_eq] at hin
+        exact Lang.range lo hi c hin.1 hin.2
+      · rw [if_neg hin] at h; cases h
+    · intro h
+      cases h with
+      | range _ _ _ h1 h2 =>
+        have : (decide (lo ≤ c.toNat) && decide (c.toNat ≤ hi)) = true := by simp [h1, h2]
+        rw [if_pos this]; exact Lang.eps
+  | seq a b iha ihb =>
+    intro c s
+    have key : Lang (.seq a b) (c :: s) ↔
+        (∃ s1 s2, s = s1 ++ s2 ∧ Lang a (c :: s1) ∧ Lang b s2) ∨ (Lang a [] ∧ Lang b (c :: s)) := by
+      constructor
+      · intro h
+        generalize hw : c :: s = w at h
+        cases h with
+        | seq _ _ s1 s2 h1 h2 =>
+          cases s1 with
+          | nil => right; simp at hw; subst hw; exact ⟨h1, h2⟩
+          | cons c' s1' =>
+            have : c = c' ∧ s = s1' ++ s2 := by simpa using hw
+            obtain ⟨rfl, rfl⟩ := this
+            left; exact ⟨s1', s2, rfl, h1, h2⟩
+      · rintro (⟨s1, s2, rfl, h1, h2⟩ | ⟨h1, h2⟩)
+        · have := Lang.seq a b (c :: s1) s2 h1 h2
+          simpa using this
+        · have := Lang.seq a b [] (c :: s) h1 h2
+          simpa using this
+    rw [key]
+    simp only [Re.deriv]
+    by_cases hn : a.nullable = true
+    · rw [if_pos hn]
+      constructor
+      · intro h
+        cases h with
+        | altL _ _ _ h =>
+          generalize hw : s = w at h
+          cases h with
+          | seq _ _ s1 s2 h1 h2 => left; exact ⟨s1, s2, rfl, (iha c s1).mp h1, h2⟩
+        | altR _ _ _ h => right; exact ⟨(nullable_iff a).mp hn, (ihb c s).mp h⟩
+      · rintro (⟨s1, s2, rfl, h1, h2⟩ | ⟨_, h2⟩)
+        · exact Lang.altL _ _ _ (Lang.seq _ _ s1 s2 ((iha c s1).mpr h1) h2)
+        · exact Lang.altR _ _ _ ((ihb c s).mpr h2)
+    · rw [if_neg hn]
+      constructor
+      · intro h
+        generalize hw : s = w at h
+        cases h with
+        | seq _ _ s1 s2 h1 h2 => left; exact ⟨s1, s2, rfl, (iha c s1).mp h1, h2⟩
+      · rintro (⟨s1, s2, rfl, h1, h2⟩ | ⟨h1, _⟩)
+        · exact Lang.seq _ _ s1 s2 ((iha c s1).mpr h1) h2
+        · exact absurd ((nullable_iff a).mpr h1) hn
+  | alt a b iha ihb =>
+    intro c s
+    simp only [Re.deriv]
+    constructor
+    · intro h
+      cases h with
+      | altL _ _ _ h => exact Lang.altL _ _ _ ((iha c s).mp h)
+      | altR _ _ _ h => exact Lang.altR _ _ _ ((ihb c s).mp h)
+    · intro h
+      cases h with
+      | altL _ _ _ h => exact Lang.altL _ _ _ ((iha c s).mpr h)
+      | altR _ _ _ h => exact Lang.altR _ _ _ ((ihb c s).mpr h)
+  | star a iha =>
+    intro c s
+    simp only [Re.deriv]
+    constructor
+    · intro h
+      generalize hw : s = w at h
+      cases h with
+      | seq _ _ s1 s2 h1 h2 =>
+        have := Lang.starCons a (c :: s1) s2 ((iha c s1).mp h1) h2
+        simpa using this
+    · intro h
+      obtain ⟨s1, s2, rfl, h1, h2⟩ := star_cons_split a (c :: s) h c s rfl
+      exact Lang.seq _ _ s1 s2 ((iha c s1).mpr h1) h2
+
+/-- **The pattern matcher is exact**: `matches` accepts a string iff it belongs to the language the pattern denotes. -/
+theorem matches_iff (s : Str) : ∀ r : Re, r.matches s = true ↔ Lang r s := by
+  induction s with
+  | nil => intro r; simpa [Re.matches] using nullable_iff r
+  | cons c s ih =>
+    intro r
+    have : r.matches (c :: s) = (r.deriv c.toNat).matches s := by simp [Re.matches]
+    rw [this, ih, deriv_iff]
+
 /-! ### non-vacuity: a small schema on which the hypotheses are met and the conclusion is not trivial -/
 
 /-- type 0 = a paragraph-like element: children pPr(tag 1, slot 0, max 1), r/br (tags 2 3, slot 1), end (tag 4, slot 2,
